@@ -1266,7 +1266,8 @@ namespace awkward {
           raw->length(),
           contentlength_so_far);
         util::handle_error(err, raw->classname(), raw->identities().get());
-        contentlength_so_far += raw->content().get()->length();
+        // the content merged above is the RegularArray's own (possibly longer than length * size)
+        contentlength_so_far += rawregular->content().get()->length();
         length_so_far += raw->length();
       }
       else if (EmptyArray* raw = dynamic_cast<EmptyArray*>(array.get())) {
